@@ -103,15 +103,20 @@ def main(prop, tier, only=None, do_replay=True):
     print(f"[{prop}] tier={tier} harnesses={tot['harnesses']} ok={tot['ok']} checks={tot['passed']}/{tot['checks']} "
           f"covers={tot['covers']} symex={tot['symex']:.0f}s solver={tot['solver']:.0f}s wall={wall:.0f}s status={status}")
     if violations:
+        shown = 0
         for v in violations:
-            if v["replay"]:
+            if v["replay"] and shown < 3:
+                shown += 1
                 print(f"VIOLATION property={prop} replay={v['replay']}")
-                print(f"  harness={v['harness']} {v['what']}")
-            else:
-                print(f"  also failing: harness={v['harness']} {v['what']}")
+                print(f"  harness={v['harness']} {v['what'][:700]}")
+        rest = len(violations) - shown
+        if rest > 0:
+            print(f"  ... and {rest} more failing harnesses/obligations: " + ", ".join(v["harness"] for v in violations[shown:shown + 12]))
         return 1
     if inconclusive:
-        for i in inconclusive:
-            print(f"INCONCLUSIVE property={prop} {i}")
+        for i in inconclusive[:6]:
+            print(f"INCONCLUSIVE property={prop} {i[:900]}")
+        if len(inconclusive) > 6:
+            print(f"  ... and {len(inconclusive) - 6} more inconclusive items")
         return 2
     return 0
